@@ -38,6 +38,9 @@ RULE = ("per zone in {UTC, Asia/Tokyo, Asia/Kolkata, Europe/Berlin, America/New_
         "sequences (a real TimeTrigger inside a real RollingFileAppender, driven clock, 2-6 arrivals, "
         "max_random_delay in {0,1,5,3600}): initial schedule, fire pattern, scheduled instant after every "
         "record (exact for delay 0, inside [base, base+max) otherwise), archived and active file contents. "
+        "Direct oracle (independent of the Coq model): for 1 <= n <= 10^6 and every get_next_time case whose zone "
+        "offset (zone table) is constant from the start of the current unit to the expected boundary, the crate's "
+        "result must equal the boundary computed with Python datetime/isocalendar arithmetic and lie after now. "
         "non-trivial = n >= 1 (kind 0) / at least two arrivals (kind 1); distinct = distinct case line")
 ASSUMPTIONS = [
     "chrono 0.4.45 Local (unix tz_info back end) resolves local times as modelled in Model/TZ.v; zone tables "
@@ -47,6 +50,11 @@ ASSUMPTIONS = [
     "interval multipliers 0 <= n < 2^63 (what the config parser yields); the random delay is observed from "
     "the scheduled instant, not controlled",
     "the harness is built with the dev profile (overflow-checks on), as the model assumes",
+    "theorem hypotheses: zone table `sane K` (asserted by the generator for all 8 tables, K = max |offset|); "
+    "n >= 1 and n < 2^31 (years) / n < 2^32 with local now in 1970..chrono max (months); the offset in force at "
+    "now is constant from the start of the current unit to the later of now and the boundary (otherwise the case "
+    "falls in F-C16-dst-overlap-panic / F-C16-fallback-storm or is only compared model-vs-crate); never-panics is "
+    "proved for zones without transitions and in-range intervals only",
 ]
 TRUSTED = ["Python zoneinfo + the TZif files under /usr/share/zoneinfo as the source of the model's zone tables",
            "hooks verif_hooks::set_clock, TimeTrigger::verif_get_next_time/verif_scheduled, "
@@ -135,6 +143,10 @@ def zone_table(name):
                 flag = 1 if any(o1 < p1 and datetime.datetime.fromtimestamp(T1, zi).year == yr and T1 < T
                                 for (T1, p1, o1) in found) else 0
             trans.append((T, o, flag))
+    # the theorems' zone class `sane K z` (Proofs/TZ.v): offsets within [-K, K], consecutive
+    # transitions more than 2K apart -- holds for every table used here with K = max |offset|
+    K = max([abs(init)] + [abs(o) for (_t, o, _f) in trans])
+    assert all(trans[i + 1][0] - trans[i][0] > 2 * K for i in range(len(trans) - 1)), (name, "not sane")
     _tables[name] = (init, trans)
     return _tables[name]
 
@@ -486,3 +498,118 @@ def known_finding(c, iv, mv):
         return None
     pf = _property_failure(c, mv)
     return pf[0] if pf else None
+
+
+# --------------------------------------------------------------------------
+# direct oracle: the property statement computed with Python's datetime/zoneinfo
+# (independent of the Coq model) against the real crate's get_next_time
+
+_EPOCH = datetime.datetime(1970, 1, 1)
+
+
+def _secs(dt):
+    return (dt - _EPOCH) // datetime.timedelta(seconds=1)
+
+
+def _expected_local(l, unit, n, mod):
+    """(start of the current unit, expected local schedule) as naive local seconds"""
+    dt = _EPOCH + datetime.timedelta(seconds=l)
+    day = datetime.datetime(dt.year, dt.month, dt.day)
+    D = datetime.timedelta(days=1)
+    if unit == 0:
+        return l, (_secs(dt.replace(second=0)) + (dt.second // n + 1) * n) if mod else l + n
+    if unit == 1:
+        ms = _secs(dt.replace(second=0))
+        return ms, (_secs(dt.replace(minute=0, second=0)) + (dt.minute // n + 1) * n * 60) if mod else ms + 60 * n
+    if unit == 2:
+        hs = _secs(dt.replace(minute=0, second=0))
+        return hs, (_secs(day) + (dt.hour // n + 1) * n * 3600) if mod else hs + 3600 * n
+    if unit == 3:
+        j1 = datetime.datetime(dt.year, 1, 1)
+        if mod:
+            return _secs(day), _secs(j1) + (((day - j1).days) // n + 1) * n * 86400
+        return _secs(day), _secs(day) + n * 86400
+    if unit == 4:
+        monday = day - dt.weekday() * D
+        iy, iw, _ = dt.isocalendar()
+        ys = datetime.datetime.combine(datetime.date.fromisocalendar(iy, 1, 1), datetime.time())
+        if mod:
+            return _secs(monday), _secs(ys) + 7 * (((iw - 1) // n + 1) * n) * 86400
+        return _secs(monday), _secs(monday) + 7 * n * 86400
+    if unit == 5:
+        k = 12 * dt.year + dt.month - 1
+        k2 = 12 * dt.year + ((dt.month - 1) // n + 1) * n if mod else k + n
+        if k2 // 12 > 9999:
+            return None
+        return _secs(datetime.datetime(dt.year, dt.month, 1)), _secs(datetime.datetime(k2 // 12, k2 % 12 + 1, 1))
+    y2 = (dt.year // n + 1) * n if mod else dt.year + n
+    if y2 > 9999:
+        return None
+    return _secs(datetime.datetime(dt.year, 1, 1)), _secs(datetime.datetime(y2, 1, 1))
+
+
+def _offset_const(name, off, a, b):
+    """offset `off` in force on the whole of [a, b] according to the zone table"""
+    init, trans = zone_table(name)
+    ts = [t for (t, _o, _f) in trans]
+    i = bisect.bisect_right(ts, a)
+    cur = trans[i - 1][1] if i > 0 else init
+    if cur != off:
+        return False
+    j = bisect.bisect_right(ts, b)
+    return all(trans[k][1] == off for k in range(i, j))
+
+
+ORACLE_STATS = {"checked": 0, "skipped_offset_changes": 0}
+
+
+def extra_checks(ctx, cases_, impl_lines, model_lines_):
+    vc = ctx["vc"]
+    bad = None
+    for i, c in enumerate(cases_):
+        if c[3] != 0:
+            continue
+        p = c[4]
+        now, unit, n, mod = unZ(p[0]), p[2], p[3], p[4]
+        if not (1 <= n <= 10**6) or not (0 <= now < 4 * 10**9):
+            continue
+        try:
+            iv = vc.parse(impl_lines[i])
+        except Exception:
+            continue
+        if not (isinstance(iv, list) and len(iv) == 2 and iv[0] == 0):
+            continue
+        name = _name(c)
+        if has_rule(name) and now > END_RULE_SCAN - 3 * 366 * DAY:
+            continue
+        t = unZ(iv[1])
+        zi = zoneinfo.ZoneInfo(name)
+        off = int(datetime.datetime.fromtimestamp(now, zi).utcoffset().total_seconds())
+        try:
+            e = _expected_local(now + off, unit, n, bool(mod))
+        except (ValueError, OverflowError):
+            e = None
+        if e is None:
+            continue
+        us, want = e
+        hi = max(now, want - off)
+        if has_rule(name) and hi > END_RULE_SCAN - DAY:
+            continue
+        if not _offset_const(name, off, us - off, hi):
+            ORACLE_STATS["skipped_offset_changes"] += 1
+            continue
+        ORACLE_STATS["checked"] += 1
+        if (t != want - off or t <= now) and bad is None:
+            bad = (i, want - off, t)
+    if bad is None:
+        return []
+    i, want, got = bad
+    name = _name(cases_[i])
+    return [("get_next_time differs from the property's boundary (python datetime oracle; the zone offset is "
+             "constant from the start of the current unit to the boundary)",
+             {"case_line": vc.show(cases_[i]), "case_description": describe(cases_[i]),
+              "expected": _iso(name, want), "expected_utc_s": want, "impl": _iso(name, got), "impl_utc_s": got})]
+
+
+def extra_coverage(ctx):
+    return {"direct_oracle": dict(ORACLE_STATS)}
